@@ -28,6 +28,29 @@ def always_cells():
     return cs
 
 
+PUSH_SETUP = '''
+class C03Cmd(std.Record):
+    valid: Bit
+    code: Unsigned[3]
+'''
+
+
+def push_cells(edges):
+    """push assignment to an aggregate (std.Record of signals) in its three spellings: the value holds for one clock, then the declared
+    default returns.  A local phase bit makes the process push only on every second clock; inputs are constant."""
+    cs = []
+    loc = "c03r{cellno} = std.Signal[C03Cmd](C03Cmd(valid=False, code=0))\nc03p{cellno} = Signal[Bit](False)"
+    for form, stmt in (("operator", "c03r{cellno} ^= C03Cmd(valid=True, code={x})"), ("attribute", "c03r{cellno}.push = C03Cmd(valid=True, code={x})"),
+                       ("member-operator", "c03r{cellno}.code ^= {x}")):
+        body = "c03p{cellno} <<= ~c03p{cellno}\nif (not c03p{cellno}) and {a}:\n    " + stmt + "\n{o} <<= c03r{cellno}.code"
+        if edges == 2:
+            spec = lambda P, a, x: P.ite(a != 0, x, 0)     # second edge copies what the first edge pushed
+        else:
+            spec = lambda P, a, x: P.const(0)              # third edge copies the state after the edge without push: the default
+        cs.append(Cell(f"push|record|{form}|{edges} clocks", [("a", BIT), ("x", U(3))], U(3), body, spec, setup=PUSH_SETUP, local=loc, nonlocals=("c03r{cellno}", "c03p{cellno}")))
+    return cs
+
+
 def run(tier: str) -> int:
     rep = Reporter("C03", tier, "translation_validation")
     wd = Workdir()
@@ -66,7 +89,7 @@ def run(tier: str) -> int:
                 if len(rep.stats.samples) < 4:
                     rep.stats.sample({"body": prog.meta["body"], "verdict": "unsat: post-state == R for every pre-state and input"})
         conc = {}
-        for ctx, cells in (("concurrent", concurrent_cells()), ("clocked", always_cells())):
+        for ctx, cells in (("concurrent", concurrent_cells()), ("clocked", always_cells()), ("clocked2", push_cells(2)), ("clocked3", push_cells(3))):
             for res in run_cells(rep, wd, cells, ctx):
                 conc[res.status] = conc.get(res.status, 0) + 1
                 if res.status == "mismatch":
